@@ -1639,6 +1639,9 @@ func (s *BgpServer) propagateUpdateToNeighbors(rib *table.TableManager, source *
 }
 
 func (s *BgpServer) stopNeighbor(peer *peer, oldState bgp.FSMState, e *fsmMsg) {
+	// The neighbour is gone from now on. An UPDATE its reader queued before
+	// the FSM goroutines stop must not pass for one of a live session.
+	peer.fsm.state.Store(bgp.BGP_FSM_IDLE)
 	peer.stopPeerRestarting()
 	// Guard against the TOCTOU window between the RUnlock and write-Lock in
 	// handleFSMMessage: only delete if the map still holds this exact peer
